@@ -5,9 +5,9 @@ VERIF = os.path.dirname(os.path.dirname(os.path.abspath(__file__)))
 TECH = 'CBMC code contracts on C rendered mechanically from the real C++ (bx2c): per-function assume/guarantee obligations, label-machine invariants for cycles'
 CLAIMED = {
  'C01': ('proof', 'For every background routine that exists in the reference and every emission kernel: the C++ routine simulates the reference routine (rendered from the .for on each run) cut point by cut point: same successor, same deviates consumed, same emission calls with equal arguments, related variables equal; for all deviates and rejection-loop trajectories.', '3 C01',
-         'also related: the leaf particle(), the beta samplers and their shape functions, fermi, tgold, the plog69 table; not related: the angular-correlation blocks of Co60/Bi207 (listed per run), genbbsub background chaining (C05 obligations instead); f77c is cross-checked natively against gcc\'s Fortran front end on every run (tools/refnative.py: 142 units agree), the simulation meta-lemma is trusted; libm/GSL special functions are uninterpreted on both sides'),
+         'also related: the leaf particle(), the beta samplers and their shape functions, fermi, tgold, the plog69 table; Co60 and Bi207 are related with their angular-correlation blocks removed on both sides (index captures, momentum reads and rewrites; re-sampling loop asserted unreachable): the blocks themselves are NOT decided; genbbsub background chaining: C05 obligations instead; f77c is cross-checked natively against gcc\'s Fortran front end on every run (tools/refnative.py: 142 units agree), the simulation meta-lemma is trusted; libm/GSL special functions are uninterpreted on both sides'),
  'C02': ('proof', 'Same simulation proof for decay0_bb against bb (one query per cut point and legacy mode), the 25 fe*_mod integrands, dshelp1/2, the 42 daughter cascades (*low) and the alpha-chain routines; DBD level/Q table of genbbsub related to GENBBsub by the C06 obligations.', '3 C02',
-         'gauss (GSL QNG vs CERNLIB D103) and dgmlt1/2 are abstract effects on both sides, so the numerical value of the reported event ratio is NOT decided; NaN guard of decay0_bb assumed silent; Ru100low/Se76low/Sm150low correlation blocks not related (listed per run)'),
+         'gauss (GSL QNG vs CERNLIB D103) and dgmlt1/2 are abstract effects on both sides, so the numerical value of the reported event ratio is NOT decided; NaN guard of decay0_bb assumed silent; Ru100low/Se76low/Sm150low are related with their angular-correlation blocks removed on both sides: the blocks themselves are NOT decided'),
  'C05': ('proof', 'For each of the 69 published background names: genbbsub initialises, and the generate phase calls exactly the documented scheme routine(s) once, in order, with the daughter delayed by its decay time (ghost call log, all deviates); README lists, .lis files and genbbsub name tests compared as sets.', '3 C05',
          'scheme routines abstracted to "log id + append particles"; bb_utils.cc list parser and the CLI are not reachable'),
  'C06': ('proof', 'For each of the 51 isotopes (and unknown names) and ALL int levels and modes: genbbsub init accepts exactly when the reference GENBBsub (rendered per name by f77c) accepts and sets Qbb/Zdbb/Adbb/EK/levelE/itrans02 identically; level table cross-checked with README Appendix 1; 4-beta, sign and mode-range rules asserted directly.', '3 C06',
